@@ -97,6 +97,8 @@ CONST_GROUPS = {
     "mqtt": "internal/network/mqtt",
     "message": "internal/message",
     "security": "internal/security",
+    "listener": "internal/network/listener",
+    "websocket": "internal/network/websocket",
     "cluster": "internal/service/cluster",
 }
 
